@@ -179,6 +179,17 @@ class Program:
             self._index_aliases(mod)
             self._index_globals(mod)
             self._index(mod, mod.tree.body, "", None, None)
+        # local variable names per function, for renaming-invariant finding keys (sa/report.py)
+        from . import report as _report
+        for f in self.funcs.values():
+            params = set(f.all_params)
+            names = set()
+            for n in ast.walk(f.node):
+                if isinstance(n, ast.Name) and isinstance(n.ctx, (ast.Store, ast.Del)) and n.id not in params:
+                    names.add(n.id)
+                elif isinstance(n, ast.comprehension):
+                    names |= {x.id for x in ast.walk(n.target) if isinstance(x, ast.Name)}
+            _report.LOCAL_NAMES[f.fq] = frozenset(names)
 
     # ------------------------------------------------------------------ indexing
     def _index_aliases(self, mod: Module) -> None:
